@@ -225,7 +225,7 @@ def bit1(ctx, pm=None, floor=384):
     return r
 
 
-def bit2(ctx, pm=None, floor=133):
+def bit2(ctx, pm=None, floor=137):
     r = RuleResult("BIT-2", "Place: the 16-bit layout is total and disjoint; setters keep the canonical form (absent sub-node has no payload bits, empty place is None)", floor=floor)
     pm = pm or PlaceModel(ctx)
     # layout: every bit is the presence bit or a payload bit of exactly one sub-node
@@ -293,6 +293,20 @@ def bit2(ctx, pm=None, floor=133):
                     r.report("BIT-2|%s|set_%s(%s)|%s" % (kind, x, mname, sname), fn_loc(pm.set[x]), pm.set[x].path,
                              "set_%s(%s) on the canonical place {%s} leaves the word %s, canonical form is %s"
                              % (x, "Some(m)" if mname == "Some" else "None", sname, _show(after), _show(exp)))
+    # "removing the last place sub-node makes the place absent" for EVERY raw word: the only present sub-node is removed
+    # from a word that carries arbitrary bits under the absent sub-nodes (Place derefs mutably to its Option<u16>)
+    for x in pm.subs:
+        sh = {y: 1 if y == x else 0 for y in pm.subs}
+        heap = {"self": pm.word(opt(1, pm.word_of(sh, True)))}
+        ret = pm.run(pm.set[x], [selfref, opt(0, None)], heap)
+        n += 1
+        after = heap["self"][1][pm.field] if ret != "diverge" else None
+        ok = after is not None and _same_opt(after, opt(0, None))
+        r.inst("set_%s(None) on a raw word whose only present sub-node is %s (junk under the absent ones): the place becomes None" % (x, x), fn_loc(pm.set[x]), "ok" if ok else "report")
+        if not ok:
+            r.report("BIT-2|empty-not-none-raw|set_%s" % x, fn_loc(pm.set[x]), pm.set[x].path,
+                     "set_%s(None) removes the last sub-node of a place word that has stray bits under absent sub-nodes (e.g. 0x%04X) and leaves %s: the place stays `Some` although all four sub-nodes read as absent -- the emptiness test must look at the presence bits, not at the whole word"
+                     % (x, (1 << pm.layout[x][0]) | (1 << min(j for y in pm.subs if y != x for j in pm.layout[y][1])), _show(after) if after is not None else "nothing (diverges)"))
     return r
 
 
